@@ -215,7 +215,13 @@ def _construct_related_types(etype: tp.ParameterizedType, types, get_subtypes,
             t_args = [t for t in t_args if not t.is_primitive()]
             t_arg = utils.random.choice(t_args)
             type_var_map[t_param] = t_arg
-    return etype.t_constructor.new(list(type_var_map.values()))
+    new_type = etype.t_constructor.new(list(type_var_map.values()))
+    # Type parameters bounded by other type parameters (class X<T1, T2: T1>)
+    # are kept in step by overwriting the argument of T1, which is not a
+    # subtype (resp. supertype) when T1 is not variant in the right direction.
+    is_related = (new_type.is_subtype(etype) if get_subtypes
+                  else etype.is_subtype(new_type))
+    return new_type if is_related else etype
 
 
 def to_type(stype, types):
